@@ -105,7 +105,28 @@ def gen_numbers(rng, tier):
     vals += [rng.randint(-10 ** k, 10 ** k) for k in range(1, 10) for _ in range(20)]
     for v in vals:
         iops.append("int.rt %d" % v)
-    return cases + chunk("int", iops)
+    # doubles by bit pattern: toString(d, 17) -> toDouble must give back the same bits (search only:
+    # ostream formatting is not modelled); toString(d, p) for p < 17 need not round-trip, it is only
+    # required to be in the grammar and to denote a value that rounds to within the printed precision
+    dops = []
+    nd = 20000 if tier == "thorough" else 2000
+    specials = ["0000000000000000", "8000000000000000", "0000000000000001", "000fffffffffffff", "0010000000000000",
+                "7fefffffffffffff", "ffefffffffffffff", "3ff0000000000000", "3ff0000000000001", "3fefffffffffffff",
+                "4340000000000000", "433fffffffffffff", "3fb999999999999a", "4024000000000000"]
+    for h in specials:
+        dops.append("dbl.rt %s 17" % h)
+    for _ in range(nd):
+        r = rng.random()
+        if r < 0.5:
+            bits = rng.getrandbits(64)
+        elif r < 0.8:
+            bits = (rng.getrandbits(1) << 63) | (rng.randint(1023 - 60, 1023 + 60) << 52) | rng.getrandbits(52)
+        else:
+            bits = struct.unpack(">Q", struct.pack(">d", rng.choice([1, -1]) * round(rng.uniform(0, 1000), rng.randint(0, 6))))[0]
+        if (bits >> 52) & 0x7ff == 0x7ff:
+            continue                                  # inf / nan are not numbers of the grammar
+        dops.append("dbl.rt %016x 17" % bits)
+    return cases + chunk("int", iops) + chunk("dbl", dops)
 
 
 # ------------------------------------------------------------------ wildcard matcher
@@ -392,6 +413,8 @@ def compare(op_line, impl, model):
         if len(a) != 4 or len(b) != 4:
             return False
         return a[0] == b[0] and a[1] == b[1] and same_double(a[2], b[2]) and a[3] == b[3]
+    if op == "dbl.rt":
+        return impl.split()[:1] == model.split()[:1]
     return " ".join(impl.split()) == " ".join(model.split())
 
 
